@@ -98,27 +98,36 @@ def upper_snake(ident):
 
 
 def split_words(ident):
+    """Word boundaries of the identifier casing the macro uses (the nine default boundaries of convert_case 0.8):
+    `_`, `-` and space are consumed; a word also ends between lower|upper, lower|digit, upper|digit, digit|lower,
+    digit|upper and before the last capital of an acronym followed by a lower-case letter (HTTPServer -> HTTP Server)."""
+    def up(c):
+        return c.upper() != c.lower() and c == c.upper()
+
+    def lo(c):
+        return c.upper() != c.lower() and c == c.lower()
+
+    def dg(c):
+        return c.isascii() and c.isdigit()
     words = []
-    for part in ident.replace("-", "_").replace(" ", "_").split("_"):
-        if not part:
+    cur = ""
+    n = len(ident)
+    for i, c in enumerate(ident):
+        if c in "_- ":
+            words.append(cur)
+            cur = ""
             continue
-        cur = part[0]
-        for i in range(1, len(part)):
-            c = part[i]
-            p = part[i - 1]
-            nxt = part[i + 1] if i + 1 < len(part) else ""
-            boundary = False
-            if c.isupper() and (p.islower() or p.isdigit()):
-                boundary = True
-            elif c.isupper() and p.isupper() and nxt.islower():
-                boundary = True  # acronym end: "HTTPServer" -> HTTP Server
-            if boundary:
-                words.append(cur)
-                cur = c
-            else:
-                cur += c
-        words.append(cur)
-    return words
+        cur += c
+        nx = ident[i + 1] if i + 1 < n else ""
+        nx2 = ident[i + 2] if i + 2 < n else ""
+        if not nx:
+            continue
+        if (lo(c) and up(nx)) or (lo(c) and dg(nx)) or (up(c) and dg(nx)) or (dg(c) and lo(nx)) or (dg(c) and up(nx)) \
+                or (up(c) and up(nx) and nx2 and lo(nx2)):
+            words.append(cur)
+            cur = ""
+    words.append(cur)
+    return [w for w in words if w]
 
 
 class QtyDecl:
